@@ -242,3 +242,85 @@ def fold(e, env=None):
         return TOP
     except RecursionError:
         return TOP
+
+
+# ---------------------------------------------------------------------------------------------------------------
+# Small-step interpreter for *pure* helper functions over a finite abstract domain (used to enumerate abstract cases such as
+# "(q1 < q2, q1 == q2, q1 > q2) x (same base / different base)"; never used on input data).
+class _Return(Exception):
+    def __init__(self, v):
+        self.v = v
+
+
+class _Break(Exception):
+    pass
+
+
+class _Continue(Exception):
+    pass
+
+
+def run_function(fdef, args, kwargs=None, env=None, budget=20000):
+    """Interpret a pure function body (Assign / AugAssign / If / For / While-free / Return / Continue / Break / Expr / Pass)."""
+    ev = Evaluator({}, budget=budget)
+    scope = dict(env or {})
+    params = [a.arg for a in fdef.args.args]
+    defaults = fdef.args.defaults
+    for p, d in zip(params[len(params) - len(defaults):], defaults):
+        scope[p] = ev.ev(d, scope)
+    if fdef.args.vararg is not None:
+        scope[fdef.args.vararg.arg] = tuple(args[len(params):])
+        args = args[:len(params)]
+    for p, a in zip(params, args):
+        scope[p] = a
+    for k, v in (kwargs or {}).items():
+        scope[k] = v
+
+    def block(stmts):
+        for s in stmts:
+            stmt(s)
+
+    def stmt(s):
+        ev.tick()
+        if isinstance(s, ast.Assign):
+            v = ev.ev(s.value, scope)
+            for t in s.targets:
+                ev.bind(t, v, scope)
+        elif isinstance(s, ast.AugAssign) and isinstance(s.target, ast.Name):
+            cur = scope[s.target.id]
+            v = ev.ev(ast.BinOp(left=ast.Constant(cur), op=s.op, right=s.value), scope) if isinstance(cur, (int, float, str)) else None
+            if v is None:
+                raise Unfoldable('augassign')
+            scope[s.target.id] = v
+        elif isinstance(s, ast.If):
+            block(s.body if ev.ev(s.test, scope) else s.orelse)
+        elif isinstance(s, ast.For):
+            for item in ev.ev(s.iter, scope):
+                ev.bind(s.target, item, scope)
+                try:
+                    block(s.body)
+                except _Continue:
+                    continue
+                except _Break:
+                    break
+            else:
+                block(s.orelse)
+        elif isinstance(s, ast.Return):
+            raise _Return(ev.ev(s.value, scope) if s.value is not None else None)
+        elif isinstance(s, ast.Continue):
+            raise _Continue()
+        elif isinstance(s, ast.Break):
+            raise _Break()
+        elif isinstance(s, ast.Pass):
+            pass
+        elif isinstance(s, ast.Expr):
+            if isinstance(s.value, ast.Constant):
+                return
+            ev.ev(s.value, scope)
+        else:
+            raise Unfoldable(f'statement {type(s).__name__}')
+    try:
+        block(fdef.body)
+    except _Return as r:
+        return r.v
+    return None
